@@ -1,7 +1,7 @@
 (** C14 — Stream inner join equals the reference join for every interleaving.
     Statements only; proofs in Proofs/JoinProofs.v.  The join condition [cond] and the window [w]
     are arbitrary (universally quantified). *)
-From RRE Require Import Base.Sx Model.Join Proofs.JoinProofs.
+From RRE Require Import Base.Sx Model.Join Proofs.JoinProofs Proofs.JoinWmProofs.
 From Coq Require Import Permutation.
 Open Scope Z_scope.
 
@@ -25,6 +25,23 @@ Theorem C14_interleaving_independent : forall cond w ops1 ops2,
 Proof. exact inner_join_interleaving_indep. Qed.
 Print Assumptions C14_interleaving_independent.
 
+(** The full statement: histories of arrivals of the two streams in ANY interleaving WITH watermark updates anywhere.
+    As long as no update finds an expired event ([may_evict w [] ops = false]: for every update z and every event e
+    that arrived before it, z - ts(e) <= w), the emitted pairs are exactly the reference join, each pair once: the
+    re-scan of update_watermark emits nothing (every satisfying buffered pair was emitted and flagged on both sides
+    when its later event arrived - invariant FlagInv) and the eviction pass returns the buffers unchanged. *)
+Theorem C14_inner_join_exact_until_eviction : forall cond w ops, may_evict w [] ops = false ->
+  Permutation (concat (run_from cond w init ops)) (ref_join cond w (lefts ops) (rights ops)).
+Proof. exact inner_join_exact_until_eviction. Qed.
+Print Assumptions C14_inner_join_exact_until_eviction.
+
+Theorem C14_interleaving_independent_until_eviction : forall cond w ops1 ops2,
+  may_evict w [] ops1 = false -> may_evict w [] ops2 = false ->
+  lefts ops1 = lefts ops2 -> rights ops1 = rights ops2 ->
+  Permutation (concat (run_from cond w init ops1)) (concat (run_from cond w init ops2)).
+Proof. exact interleaving_indep_until_eviction. Qed.
+Print Assumptions C14_interleaving_independent_until_eviction.
+
 (** non-vacuity: two keys, a keyless event, window 2, condition on attributes *)
 Example C14_example :
   let l i t k a := OLeft {| eid := i; ets := t; ekey := k; eattr := a |} in
@@ -32,4 +49,10 @@ Example C14_example :
   let ops := [l 1 5 (Some 7) 0; r 10 6 (Some 7) 1; r 11 9 (Some 7) 1; l 2 8 (Some 7) 0; l 3 8 None 0; r 12 8 (Some 9) 0] in
   concat (run_from (cond_of 1) 2 init ops) = [(1, 10); (2, 10); (2, 11)]
   /\ ok 1 2 ops (run_from (cond_of 1) 2 init ops) = true.
+Proof. vm_compute. split; reflexivity. Qed.
+Example C14_example_watermarks :
+  let l i t k a := OLeft {| eid := i; ets := t; ekey := k; eattr := a |} in
+  let r i t k a := ORight {| eid := i; ets := t; ekey := k; eattr := a |} in
+  let ops := [l 1 5 (Some 7) 0; OWm 6; r 10 6 (Some 7) 1; OWm 7; l 2 8 (Some 7) 0; OWm 7] in
+  may_evict 2 [] ops = false /\ concat (run_from (cond_of 1) 2 init ops) = [(1, 10); (2, 10)].
 Proof. vm_compute. split; reflexivity. Qed.
